@@ -8,7 +8,7 @@ LEVEL = "exploration"
 RULE = ("arrays of 1-4 dims, unsorted int/float/str labels, float (NaN pattern none/some/whole slice/all) or int data; operation in "
         "{sort_axis (default, callable key, dict key), take_axis (labels / positions, repeats), compress_axis (mask), dropna (default and "
         "every minvalid 0..slice size for >=2-d), fillna, setna (scalar / list / ndarray mask / DimArray mask / mixed list), inplace both ways}; "
-        "axis by name or position. class = (operation, form, data kind, NaN pattern, label kind, ndim, axis position); trivial = none")
+        "axis by name or position; take_axis by position also with mode=clip/wrap and out-of-range positions. class = (operation, form, data kind, NaN pattern, label kind, ndim, axis position); trivial = none")
 ANCHORS = ["align.sort_axis", "dimarraycls.take_axis", "dimarraycls.compress_axis", "missingvalues.dropna", "missingvalues.fillna",
            "missingvalues.setna", "missingvalues._matches"]
 # entry points the workload calls itself; the other anchors are helpers behind them (counted as evidence only)
